@@ -518,13 +518,13 @@ Fixpoint from_attrs (attrs : list attr) (i : info) : option eres * info :=
       if is_nil (a_space a) then
         if bytes_eqb (a_local a) (str "xmlns") then from_attrs r (set_xmlns i (a_val a))
         else if bytes_eqb (a_local a) (str "to") then
-          (if is_nil (a_val a) then from_attrs r i
+          (if is_nil (a_val a) then from_attrs r (set_to i jid_zero)   (* the empty attribute is the zero JID *)
            else match parse (a_val a) with
                 | Some j => from_attrs r (set_to i j)
                 | None => (Some (EStream c_improper_addressing), set_to i jid_zero)
                 end)
         else if bytes_eqb (a_local a) (str "from") then
-          (if is_nil (a_val a) then from_attrs r i
+          (if is_nil (a_val a) then from_attrs r (set_from i jid_zero)
            else match parse (a_val a) with
                 | Some j => from_attrs r (set_from i j)
                 | None => (Some (EStream c_improper_addressing), set_from i jid_zero)
@@ -547,31 +547,28 @@ Definition from_start_element (ns l : bytes) (attrs : list attr) (i : info) : op
 (* ------------------------------------------------------------------ *)
 (* 9. stream.Error.UnmarshalXML and the readers                        *)
 
-(* The children of <stream:error>, start token consumed. A child in the stream
-   error name space other than <text/> sets the condition and is skipped
-   ([skipping] = Some depth while inside it); a child in any other name space is
-   NOT skipped: the loop goes on inside it and returns at its end tag, upon
-   which encoding/xml reports that UnmarshalXML did not consume the entire
-   element ([foreign] = true records that). *)
-Fixpoint stream_error (skipping : option nat) (cond : bytes) (foreign : bool) (ts : list tok) : eres :=
+(* The children of <stream:error>, start token consumed. Every child element
+   is skipped whole ([skipping] = Some depth while inside it); a child in the
+   stream error name space other than <text/> sets the condition, a child in
+   any other name space (an application-specific condition) is ignored. *)
+Fixpoint stream_error (skipping : option nat) (cond : bytes) (ts : list tok) : eres :=
   match ts with
   | [] => EIo
   | t :: r =>
       match skipping with
       | Some d =>
           match t with
-          | TStart _ _ _ => stream_error (Some (S d)) cond foreign r
-          | TEnd _ _ => stream_error (match d with O => None | S d' => Some d' end) cond foreign r
-          | _ => stream_error (Some d) cond foreign r
+          | TStart _ _ _ => stream_error (Some (S d)) cond r
+          | TEnd _ _ => stream_error (match d with O => None | S d' => Some d' end) cond r
+          | _ => stream_error (Some d) cond r
           end
       | None =>
           match t with
-          | TEnd _ _ => if foreign then EOther else EStream cond
+          | TEnd _ _ => EStream cond
           | TStart ns l _ =>
-              if bytes_eqb ns ns_stream_error
-              then stream_error (Some O) (if bytes_eqb l (str "text") then cond else l) foreign r
-              else stream_error None cond true r
-          | _ => stream_error None cond foreign r
+              stream_error (Some O)
+                (if bytes_eqb ns ns_stream_error && negb (bytes_eqb l (str "text")) then l else cond) r
+          | _ => stream_error None cond r
           end
       end
   end.
@@ -582,7 +579,7 @@ Fixpoint ws_skip (depth : nat) (ts : list tok) : eres * list tok :=
   | [] => (EIo, [])
   | TStart ns l _ :: r =>
       if bytes_eqb ns ns_stream then
-        if bytes_eqb l (str "error") then (stream_error None [] false r, [])
+        if bytes_eqb l (str "error") then (stream_error None [] r, [])
         else if bytes_eqb l (str "stream") then ws_skip (S depth) r
         else (EOther, [])
       else ws_skip (S depth) r
@@ -636,7 +633,7 @@ Fixpoint expect_go (recv ws : bool) (started deep : bool) (i : info) (ts : list 
           else expect_go recv ws true true i r
       | TStart ns l attrs =>
           if bytes_eqb ns ns_stream && bytes_eqb l (str "error") then
-            (stream_error None [] false r, i, [])
+            (stream_error None [] r, i, [])
           else if bytes_eqb ns ns_stream && negb (bytes_eqb l (str "stream")) then (EOther, i, [])
           else expect_start recv ws ns l attrs i r
       end
@@ -748,7 +745,7 @@ Fixpoint jid_attr (l : bytes) (attrs : list attr) (cur : jid) : option jid :=
   | [] => Some cur
   | a :: r =>
       if bytes_eqb (a_local a) l then
-        (if is_nil (a_val a) then jid_attr l r cur
+        (if is_nil (a_val a) then jid_attr l r jid_zero
          else match parse (a_val a) with Some j => jid_attr l r j | None => None end)
       else jid_attr l r cur
   end.
@@ -869,9 +866,10 @@ Inductive verdict :=
 | VStanzaErr (err : list node)      (* callback returned a stanza.Error, rendered as these nodes *)
 | VFail.                            (* callback returned another error *)
 
-(* default: RemoteAddr().WithResource(attr.RandomID()) *)
+(* default: RemoteAddr().WithResource(attr.RandomID()); WithResource refuses a
+   JID that has no domainpart (the remote address is not known) *)
 Definition default_verdict (remote : jid) (rid : bytes) : verdict :=
-  VJid (mkjid (j_local remote) (j_domain remote) rid).
+  if is_nil (j_domain remote) then VFail else VJid (mkjid (j_local remote) (j_domain remote) rid).
 
 (* the receiving side: result, the resource handed to the callback (if it was
    called) and the reply written *)
